@@ -46,7 +46,7 @@ ASSUMPTIONS = [
     "a pristine twin rebuilt from the scenario is the reference for every deterministic query: same code, so agreement means history- and RNG-independence, not functional correctness (that is C01-C09, not claimed)",
     "for a 0-d array argument either a scalar or a 0-d array result is accepted; Python and NumPy scalars count as plain scalars",
 ]
-PROBES = ["interrupt_fired", "reentrant_callback", "callback_raise", "swap_alias", "readonly_input", "zero_size_axis", "three_d_argument",
+PROBES = ["caller_mutates_own_array", "caller_scribbles_result", "interrupt_fired", "reentrant_callback", "callback_raise", "swap_alias", "readonly_input", "zero_size_axis", "three_d_argument",
           "scalar_argument", "noise_op", "elementwise_checked", "alias_checked", "cm_multiclass", "cm_stacked", "group_object",
           "empty_class", "int_scores", "twin_checked", "exception_agreed"]
 
@@ -227,6 +227,16 @@ def generate(rnd, tier):
         if op["op"] in ("cm", "rate", "thr_at", "thr_at_metric", "group_rate", "group_cm"):
             op["idx"] = [rnd.randrange(1000) for _ in range(rnd.randint(1, 3))]
         ops.append(op)
+        if op["op"] in ("cm", "rate", "thr_at", "group_rate", "group_cm") and rnd.random() < 0.15:
+            # the caller reuses its buffer (writes new values into the same array) or writes into the result it
+            # was handed, and then asks the same question again
+            if "x" in op and rnd.random() < 0.6:
+                ops.append({"client": op["client"], "op": "mutate_arg", "x": op["x"], "delta": rnd.choice([0.5, -1.0, 2.0, 0.1]), "rev": rnd.random() < 0.3})
+            else:
+                ops.append({"client": op["client"], "op": "scribble_result"})
+            again = copy.deepcopy(op)
+            again.pop("faults", None)
+            ops.append(again)
     return {"np_seed": rnd.randrange(2**31), "objects": objects, "arrays": arrays, "ops": ops}
 
 
@@ -529,6 +539,38 @@ def execute(scn, ctx):
             seam.seed(op["seed"])
             trace.append([step, op.get("client"), "reseed"])
             sig.append("reseed")
+            continue
+        if k == "mutate_arg":
+            # caller-side: the caller writes new values into its own (writable) array; not a library call
+            v = args.get(op["x"])
+            if isinstance(v, np.ndarray) and v.flags.writeable and v.size:
+                v += op["delta"]
+                if op.get("rev") and v.ndim == 1:
+                    v[:] = v[::-1].copy()
+                arg_fp[op["x"]] = M.fingerprint(v)
+                probe("caller_mutates_own_array")
+                # results handed out earlier must not have been views of the caller's array
+                check_everything_unchanged(f"when the caller wrote into its own threshold array [op {step}]", {"op": k})
+            trace.append([step, op.get("client"), "mutate_arg", op["x"]])
+            sig.append("mutate_arg")
+            continue
+        if k == "scribble_result":
+            # caller-side: the caller writes into the last result it was handed (it owns that object)
+            # (only results of Scores / GroupScores queries: ConfusionMatrix count metrics and indexing return
+            # NumPy views of the matrix by design, writing into those legitimately writes into the matrix)
+            if held and held[-1][1].split("(")[0] in ("cm", "rate", "thr_at", "group_rate", "group_cm"):
+                hstep, hdesc, hval, _ = held.pop()
+                target = hval.matrix if M.kind_of(hval) == "ConfusionMatrix" else hval if isinstance(hval, np.ndarray) else None
+                if isinstance(target, np.ndarray) and target.size and target.flags.writeable:
+                    try:
+                        target[...] = 7
+                        probe("caller_scribbles_result")
+                    except Exception:  # noqa: BLE001
+                        pass
+                    # writing into a returned result must not reach into any pool object or caller array
+                    check_everything_unchanged(f"when the caller wrote into the result of {hdesc} [op {step}]", {"op": k})
+            trace.append([step, op.get("client"), "scribble_result"])
+            sig.append("scribble_result")
             continue
         oi = op["obj"] % len(pool)
         o = pool[oi]
